@@ -3,6 +3,7 @@ package worlds
 import (
 	"sync"
 
+	"github.com/jech/galene/diskwriter"
 	"github.com/jech/galene/group"
 	"github.com/jech/galene/ice"
 	"github.com/jech/galene/rtptime"
@@ -29,4 +30,6 @@ func resetGlobals(r *simrt.Run) {
 	group.DataDirectory = "/sim/data"
 	token.VerifReset("/sim/data/var/tokens.jsonl")
 	r.SetFS(simrt.NewVFS())
+	// the recorder writes real files: never into the working directory
+	diskwriter.Directory = recordingsDir()
 }
